@@ -7,13 +7,16 @@ import (
 
 	"hop.computer/hop/transport"
 	. "hopverif/hvlib"
+	"hopverif/sess"
 )
 
 // C14 — replay filter.  Histories are built around the case split of the proof: steps inside a
 // block, +-1 at block edges, jumps of 64k+{0,1,63}, jumps beyond the ring, revisits of the lower
 // window edge; after every step the whole neighbourhood [wt-460, wt+70) is probed.
 
-func main() { Main(map[string]*Suite{"C14": {Gen: genC14, Run: runC14}}) }
+// "C03" is the session suite (harness/sess): the filter as the receive path uses it — Check before
+// authentication, Mark only after it.
+func main() { Main(map[string]*Suite{"C14": {Gen: genC14, Run: runC14}, "C03": sess.New("mixed")}) }
 
 func genC14(g *GenCtx) {
 	probe := func(top uint64) {
